@@ -1,8 +1,128 @@
-(* Proofs about the serveHls composition (AuthServeHls.v) *)
+(* Proofs about the serveHls composition and the HLS sub-session life cycle (AuthServeHls.v) *)
 From Lal Require Import Common.LBytes Auth.AuthStr Auth.AuthStrProofs Auth.AuthSimple Auth.AuthPaths Auth.AuthBlacklist
   Auth.AuthServeHls Auth.AuthSpec Auth.AuthBlacklistProofs Auth.AuthPathsProofs Auth.AuthSimpleProofs.
-From Coq Require Import Lia.
+From Coq Require Import Lia DecimalN.
 Open Scope Z_scope.
+
+(* ---- session ids are distinct ---------------------------------------------------- *)
+Lemma uint_bytes_inj u : forall v, uint_bytes u = uint_bytes v -> u = v.
+Proof.
+  induction u; destruct v; cbn [uint_bytes]; intros H; try discriminate; try reflexivity;
+    inversion H as [H1]; f_equal; auto.
+Qed.
+
+Lemma new_session_id_inj a b : new_session_id a = new_session_id b -> a = b.
+Proof.
+  unfold new_session_id, dec. intros H. inversion H as [H1]. apply uint_bytes_inj in H1.
+  rewrite <- (DecimalN.Unsigned.of_to a), <- (DecimalN.Unsigned.of_to b). now rewrite H1.
+Qed.
+
+(* ---- the session list operations ------------------------------------------------- *)
+Lemma sess_mem_spec x l : sess_mem x l = true <-> exists y, In y l /\ hx_id y = x.
+Proof.
+  induction l as [|y t IH]; cbn [sess_mem In].
+  - split; [discriminate|intros (y & [] & _)].
+  - rewrite orb_true_iff, IH, beq_eq. split.
+    + intros [H|(z & Hz & E)]; [exists y; auto|exists z; auto].
+    + intros (z & [->|Hz] & E); [now left|right; eauto].
+Qed.
+
+(* every element of l' comes from an element of l with the same id, and disposed stays disposed *)
+Definition sub_of (l' l : list hsess) : Prop :=
+  forall y', In y' l' -> exists y, In y l /\ hx_id y' = hx_id y /\ (hx_disposed y = true -> hx_disposed y' = true).
+
+Lemma sub_of_refl l : sub_of l l.
+Proof. intros y H. exists y. auto. Qed.
+
+Lemma sub_of_trans a b c : sub_of a b -> sub_of b c -> sub_of a c.
+Proof.
+  intros H1 H2 y Hy. destruct (H1 y Hy) as (z & Hz & E1 & D1). destruct (H2 z Hz) as (w & Hw & E2 & D2).
+  exists w. repeat split; [exact Hw|congruence|auto].
+Qed.
+
+Lemma sub_of_touch x t l : sub_of (sess_touch x t l) l.
+Proof.
+  induction l as [|y r IH]; intros y' H; cbn [sess_touch] in H; [destruct H|].
+  destruct (beq (hx_id y) x); destruct H as [<-|H].
+  - exists y. cbn. auto.
+  - destruct (IH y' H) as (z & Hz & E). exists z. split; [now right|exact E].
+  - exists y. cbn. auto.
+  - destruct (IH y' H) as (z & Hz & E). exists z. split; [now right|exact E].
+Qed.
+
+Lemma sub_of_dispose x l : sub_of (sess_dispose x l) l.
+Proof.
+  induction l as [|y r IH]; intros y' H; cbn [sess_dispose] in H; [destruct H|].
+  destruct (beq (hx_id y) x); destruct H as [<-|H].
+  - exists y. cbn. auto.
+  - destruct (IH y' H) as (z & Hz & E). exists z. split; [now right|exact E].
+  - exists y. cbn. auto.
+  - destruct (IH y' H) as (z & Hz & E). exists z. split; [now right|exact E].
+Qed.
+
+Lemma sub_of_remove x l : sub_of (sess_remove x l) l.
+Proof.
+  induction l as [|y r IH]; intros y' H; cbn [sess_remove] in H; [destruct H|].
+  destruct (beq (hx_id y) x).
+  - destruct (IH y' H) as (z & Hz & E). exists z. split; [now right|exact E].
+  - destruct H as [<-|H]; [exists y; cbn; auto|].
+    destruct (IH y' H) as (z & Hz & E). exists z. split; [now right|exact E].
+Qed.
+
+Lemma sub_of_sweep to t l : sub_of (sess_sweep to t l) l.
+Proof. intros y H. apply filter_In in H as [H _]. exists y. auto. Qed.
+
+(* all entries with id sid are disposed / there is no entry with id sid *)
+Definition all_disposed (sid : bytes) (l : list hsess) : Prop :=
+  forall y, In y l -> hx_id y = sid -> hx_disposed y = true.
+Definition absent (sid : bytes) (l : list hsess) : Prop := sess_mem sid l = false.
+
+Lemma all_disposed_sub sid l' l : sub_of l' l -> all_disposed sid l -> all_disposed sid l'.
+Proof. intros Hs H y Hy E. destruct (Hs y Hy) as (z & Hz & E1 & D). apply D, (H z Hz). congruence. Qed.
+
+Lemma absent_sub sid l' l : sub_of l' l -> absent sid l -> absent sid l'.
+Proof.
+  unfold absent. intros Hs H. destruct (sess_mem sid l') eqn:E; [|reflexivity].
+  apply sess_mem_spec in E as (y & Hy & Ey). destruct (Hs y Hy) as (z & Hz & E1 & _).
+  assert (Hm : sess_mem sid l = true) by (apply sess_mem_spec; exists z; split; [exact Hz|congruence]). congruence.
+Qed.
+
+Lemma absent_all_disposed sid l : absent sid l -> all_disposed sid l.
+Proof.
+  intros H y Hy E. assert (Hm : sess_mem sid l = true) by (apply sess_mem_spec; eauto). unfold absent in H. congruence.
+Qed.
+
+Lemma all_disposed_cons sid y l : hx_id y <> sid -> all_disposed sid l -> all_disposed sid (y :: l).
+Proof. intros Hn H z [<-|Hz] E; [contradiction|now apply H]. Qed.
+
+Lemma absent_cons sid y l : hx_id y <> sid -> absent sid l -> absent sid (y :: l).
+Proof. unfold absent. intros Hn H. cbn [sess_mem]. apply beq_neq in Hn. now rewrite Hn, H. Qed.
+
+Lemma dispose_all_disposed sid l : all_disposed sid (sess_dispose sid l).
+Proof.
+  induction l as [|y r IH]; intros z H E; cbn [sess_dispose] in H; [destruct H|].
+  destruct (beq (hx_id y) sid) eqn:Eb; destruct H as [<-|H]; try (now apply IH).
+  - reflexivity.
+  - cbn in E. apply beq_neq in Eb. contradiction.
+Qed.
+
+(* a sweep removes what is disposed *)
+Lemma sweep_absent sid to t l : all_disposed sid l -> absent sid (sess_sweep to t l).
+Proof.
+  intros H. unfold absent. destruct (sess_mem sid (sess_sweep to t l)) eqn:E; [|reflexivity].
+  apply sess_mem_spec in E as (y & Hy & Ey). apply filter_In in Hy as [Hy Hf].
+  rewrite (H y Hy Ey) in Hf. discriminate.
+Qed.
+
+(* ... and what has expired *)
+Lemma sweep_expired sid to t l :
+  (forall y, In y l -> hx_id y = sid -> hx_disposed y = true \/ hx_last y + to < t) -> absent sid (sess_sweep to t l).
+Proof.
+  intros H. unfold absent. destruct (sess_mem sid (sess_sweep to t l)) eqn:E; [|reflexivity].
+  apply sess_mem_spec in E as (y & Hy & Ey). apply filter_In in Hy as [Hy Hf].
+  destruct (H y Hy Ey) as [D|X]; [rewrite D in Hf; discriminate|].
+  apply Z.ltb_lt in X. rewrite X, orb_true_r in Hf. discriminate.
+Qed.
 
 Section ServeHlsProofs.
   Variable md5raw : bytes -> bytes.
@@ -11,46 +131,96 @@ Section ServeHlsProofs.
   Variable parse_query_all : bytes -> list (bytes * bytes).
   Notation serve := (serve_hls md5raw parse_query lower_uni parse_query_all).
   Notation handler := (hls_handler parse_query_all).
+  Notation step := (sh_step md5raw parse_query lower_uni parse_query_all).
+  Notation trace := (sh_trace md5raw parse_query lower_uni parse_query_all).
+  Notation exec := (sh_exec md5raw parse_query lower_uni parse_query_all).
+  Notation sid_of := (session_id_of parse_query_all).
 
-  Lemma sh_run_tagged_snd cfg sub root ops : forall st now,
-    map snd (sh_run_tagged md5raw parse_query lower_uni parse_query_all cfg sub root st now ops)
-    = sh_run md5raw parse_query lower_uni parse_query_all cfg sub root st now ops.
+  Lemma trace_snd cfg sub root to ph ops : forall st now,
+    map snd (trace cfg sub root to ph st now ops) = sh_run md5raw parse_query lower_uni parse_query_all cfg sub root to ph st now ops.
   Proof.
-    induction ops as [|o r IH]; intros st now; [reflexivity|].
-    destruct o as [ip path q|ip d|s]; cbn [sh_run_tagged sh_run]; try apply IH.
-    destruct (serve cfg sub root st now ip path q) as [st' resp]. cbn [map snd]. now rewrite IH.
+    induction ops as [|o r IH]; intros st now; [reflexivity|]. cbn [sh_trace sh_run].
+    destruct (step cfg sub root to ph st now o) as [[st' t] [x|]]; cbn [map snd]; now rewrite IH.
   Qed.
 
-  (* the handler never touches the black-list, and answers neither "auth failed" nor "blocked" *)
-  Lemma handler_spec sub root st path q :
-    hs_bl (fst (handler sub root st path q)) = hs_bl st /\
-    reaches_handler (snd (handler sub root st path q)) /\
-    (forall p, snd (handler sub root st path q) = HrFile p -> hls_serve_file path root = Some p).
+  Lemma trace_app cfg sub root to ph a : forall st now b,
+    trace cfg sub root to ph st now (a ++ b) =
+    trace cfg sub root to ph st now a ++
+    trace cfg sub root to ph (fst (exec cfg sub root to ph st now a)) (snd (exec cfg sub root to ph st now a)) b.
+  Proof.
+    induction a as [|o r IH]; intros st now b; [reflexivity|]. cbn [app sh_trace sh_exec].
+    destruct (step cfg sub root to ph st now o) as [[st' t] [x|]]; cbn [app]; now rewrite IH.
+  Qed.
+
+  Lemma exec_app cfg sub root to ph a : forall st now b,
+    exec cfg sub root to ph st now (a ++ b) =
+    exec cfg sub root to ph (fst (exec cfg sub root to ph st now a)) (snd (exec cfg sub root to ph st now a)) b.
+  Proof.
+    induction a as [|o r IH]; intros st now b; [reflexivity|]. cbn [app sh_exec].
+    destruct (step cfg sub root to ph st now o) as [[st' t] x]. apply IH.
+  Qed.
+
+  Lemma serve_file_type path root p : hls_serve_file path root = Some p ->
+    beq (snd (filename_and_type (last_item_of_path path))) s_m3u8 = true \/
+    beq (snd (filename_and_type (last_item_of_path path))) s_ts = true.
+  Proof.
+    unfold hls_serve_file, hls_serve_file_gen.
+    destruct (beq (snd (filename_and_type (last_item_of_path path))) s_m3u8); [now left|].
+    destruct (beq (snd (filename_and_type (last_item_of_path path))) s_ts); [now right|].
+    cbn [negb andb]. rewrite orb_true_r. cbn [orb]. discriminate.
+  Qed.
+
+  (* the handler never touches the black-list, answers neither "auth failed" nor "blocked",
+     opens only the file the path maps to, and its session list is the old one (touched)
+     plus possibly one new session with the next id *)
+  Lemma handler_spec sub root st now path q :
+    hs_bl (fst (handler sub root st now path q)) = hs_bl st /\
+    reaches_handler (snd (handler sub root st now path q)) /\
+    (forall p, snd (handler sub root st now path q) = HrFile p -> hls_serve_file path root = Some p) /\
+    ((sub_of (hs_sessions (fst (handler sub root st now path q))) (hs_sessions st) /\
+      hs_next (fst (handler sub root st now path q)) = hs_next st) \/
+     (exists y l, hs_sessions (fst (handler sub root st now path q)) = y :: l /\ hx_id y = new_session_id (hs_next st) /\
+                  sub_of l (hs_sessions st) /\ hs_next (fst (handler sub root st now path q)) = (hs_next st + 1)%N)).
   Proof.
     unfold hls_handler, reaches_handler.
-    destruct (hls_serve_file path root) as [f|] eqn:Ef;
-      destruct sub; cbn [fst snd];
-      repeat match goal with |- context [if ?b then _ else _] => destruct b; cbn [fst snd hs_bl] end;
-      repeat split; try discriminate; intros p H; now inversion H.
+    assert (Hser : forall p, (match hls_serve_file path root with Some p0 => HrFile p0 | None => HrInvalid end) = HrFile p ->
+                             hls_serve_file path root = Some p).
+    { intros p. destruct (hls_serve_file path root); intros H; now inversion H. }
+    assert (Hne : forall r, r = (match hls_serve_file path root with Some p0 => HrFile p0 | None => HrInvalid end) ->
+                            r <> HrAuthFail /\ r <> HrBlocked).
+    { intros r ->. destruct (hls_serve_file path root); split; discriminate. }
+    destruct sub; cbn [fst snd].
+    2:{ repeat split; try (now apply Hne); [exact Hser|]. left. split; [apply sub_of_refl|reflexivity]. }
+    set (sid := sid_of q).
+    destruct (beq (snd (filename_and_type (last_item_of_path path))) s_ts && negb (is_empty sid)).
+    { destruct (sess_mem sid (hs_sessions st)); cbn [fst snd hs_bl hs_sessions hs_next].
+      - repeat split; try (now apply Hne); [exact Hser|]. left. split; [apply sub_of_touch|reflexivity].
+      - repeat split; try discriminate. left. split; [apply sub_of_refl|reflexivity]. }
+    destruct (beq (snd (filename_and_type (last_item_of_path path))) s_m3u8).
+    - destruct (negb (is_empty sid)).
+      + destruct (sess_mem sid (hs_sessions st)); cbn [fst snd hs_bl hs_sessions hs_next].
+        * repeat split; try (now apply Hne); [exact Hser|]. left. split; [apply sub_of_touch|reflexivity].
+        * repeat split; try discriminate. left. split; [apply sub_of_refl|reflexivity].
+      + cbn [fst snd hs_bl hs_sessions hs_next]. repeat split; try discriminate.
+        right. eexists _, _. repeat split; [apply sub_of_refl].
+    - cbn [fst snd]. repeat split; try (now apply Hne); [exact Hser|]. left. split; [apply sub_of_refl|reflexivity].
   Qed.
 
-  (* one request: a listed address whose expiry has not passed gets neither content nor a
-     session - whatever it asks for (playlist or fragment, either URL form, any query,
-     sub-session feature on or off) - and every live entry stays listed *)
+  (* ---- black-list ------------------------------------------------------------------ *)
   Lemma serve_listed cfg sub root st now ip k path q u :
-    bl_lookup ip (hs_bl st) = Some u -> now <= u ->
+    bl_lookup ip (hs_bl st) = Some u -> now / 1000 <= u ->
     bl_lookup ip (hs_bl (fst (serve cfg sub root st now k path q))) = Some u /\
     (k = ip -> no_content (snd (serve cfg sub root st now k path q))).
   Proof.
     intros Hl Hle. unfold serve_hls.
     match goal with |- context [negb ?b] => destruct b end; cbn [negb].
-    - destruct (has_live (hs_bl st) ip k u now Hl Hle) as [H1 _].
-      destruct (bl_has (hs_bl st) k now) as [t' b] eqn:E. cbn [fst] in H1.
+    - destruct (has_live (hs_bl st) ip k u (now / 1000) Hl Hle) as [H1 _].
+      destruct (bl_has (hs_bl st) k (now / 1000)) as [t' b] eqn:E. cbn [fst] in H1.
       destruct b.
       + cbn [fst snd hs_bl]. split; [exact H1|]. intros _. split; intros ?; discriminate.
-      + destruct (handler_spec sub root (mk_hls_state t' (hs_sessions st) (hs_next st)) path q) as (Hb & _ & _).
+      + destruct (handler_spec sub root (mk_hls_state t' (hs_sessions st) (hs_next st)) now path q) as (Hb & _).
         rewrite Hb. cbn [hs_bl]. split; [exact H1|]. intros ->.
-        destruct (has_live (hs_bl st) ip ip u now Hl Hle) as [_ H2]. rewrite E in H2. discriminate.
+        destruct (has_live (hs_bl st) ip ip u (now / 1000) Hl Hle) as [_ H2]. rewrite E in H2. discriminate.
     - cbn [fst snd]. split; [exact Hl|]. intros _. split; intros ?; discriminate.
   Qed.
 
@@ -59,32 +229,39 @@ Section ServeHlsProofs.
     induction 1 as [|o r Ho Hr IH]; [cbn; lia|]. destruct o; cbn [sh_total_sleep]; try exact IH. cbn in Ho. lia.
   Qed.
 
-  Theorem hls_blacklisted_no_content cfg sub root ops : forall st now ip u,
-    bl_lookup ip (hs_bl st) = Some u -> Forall (sh_op_ok ip) ops -> now + sh_total_sleep ops <= u ->
-    Forall (fun kr => fst kr = ip -> no_content (snd kr))
-           (sh_run_tagged md5raw parse_query lower_uni parse_query_all cfg sub root st now ops).
+  Lemma advance_time n to ph : forall l now, snd (advance_secs n to ph l now) = now + 1000 * Z.of_nat n.
+  Proof.
+    induction n as [|n IH]; intros l now; cbn [advance_secs snd]; [lia|]. rewrite IH. lia.
+  Qed.
+
+  Theorem hls_blacklisted_no_content cfg sub root to ph ops : forall st now ip u,
+    bl_lookup ip (hs_bl st) = Some u -> Forall (sh_op_ok ip) ops -> now / 1000 + sh_total_sleep ops <= u ->
+    Forall (from_ip ip no_content) (trace cfg sub root to ph st now ops).
   Proof.
     induction ops as [|o r IH]; intros st now ip u Hl Hok Hle; [constructor|].
     inversion Hok as [|? ? Ho Hr]; subst.
     pose proof (sh_total_sleep_nonneg ip r Hr) as Hnn.
-    destruct o as [k path q|k d|s]; cbn [sh_run_tagged sh_total_sleep] in *.
-    - assert (Hnow : now <= u) by lia.
+    destruct o as [k path q|k d|s|x|]; cbn [sh_trace sh_step sh_total_sleep] in *.
+    - assert (Hnow : now / 1000 <= u) by lia.
       destruct (serve_listed cfg sub root st now ip k path q u Hl Hnow) as [H1 H2].
       destruct (serve cfg sub root st now k path q) as [st' resp]. cbn [fst snd] in *.
       constructor; [exact H2|]. apply (IH _ _ ip u); auto.
     - apply (IH _ _ ip u); auto. cbn [hs_bl]. cbn in Ho. now rewrite lookup_add_other.
-    - cbn in Ho. apply (IH _ _ ip u); auto. lia.
+    - cbn in Ho. pose proof (advance_time (Z.to_nat s) to ph (hs_sessions st) now) as Ht.
+      destruct (advance_secs (Z.to_nat s) to ph (hs_sessions st) now) as [l t]. cbn [snd] in Ht.
+      apply (IH _ _ ip u); auto. subst t. rewrite Z2Nat.id by exact Ho.
+      replace (now + 1000 * s) with (now + s * 1000) by lia. rewrite Z.div_add by lia. lia.
+    - constructor; [exact I|]. apply (IH _ _ ip u); auto.
+    - constructor; [exact I|]. apply (IH _ _ ip u); auto.
   Qed.
 
-  (* admission: a request is seen by hls.ServerHandler <-> (for a playlist: the hls flag is
-     off or the URL carries the secret) and the address is not black-listed.  Nothing else in
-     the query string, the session table or the sub-session switch takes part. *)
+  (* ---- admission -------------------------------------------------------------------- *)
   Theorem hls_admission cfg sub root st now ip path q :
     reaches_handler (snd (serve cfg sub root st now ip path q)) <->
     ((beq (snd (filename_and_type (last_item_of_path path))) s_m3u8 = true ->
       sa_hls_m3u8 cfg = false \/
       carries_secret md5raw parse_query lower_uni cfg (ri_stream (get_request_info path root)) q)
-     /\ snd (bl_has (hs_bl st) ip now) = false).
+     /\ snd (bl_has (hs_bl st) ip (now / 1000)) = false).
   Proof.
     unfold serve_hls.
     set (stream := ri_stream (get_request_info path root)).
@@ -96,9 +273,9 @@ Section ServeHlsProofs.
       - split; [now left|reflexivity]. }
     destruct (beq (snd (filename_and_type (last_item_of_path path))) s_m3u8) eqn:Em.
     - destruct (on_hls md5raw parse_query lower_uni cfg stream q) eqn:Ea; cbn [negb].
-      + destruct (bl_has (hs_bl st) ip now) as [t' b] eqn:Eb. cbn [snd]. destruct b.
+      + destruct (bl_has (hs_bl st) ip (now / 1000)) as [t' b] eqn:Eb. cbn [snd]. destruct b.
         * cbn [snd]. unfold reaches_handler. split; [intros [_ H]; congruence|intros [_ H]; discriminate].
-        * destruct (handler_spec sub root (mk_hls_state t' (hs_sessions st) (hs_next st)) path q) as (_ & Hr & _).
+        * destruct (handler_spec sub root (mk_hls_state t' (hs_sessions st) (hs_next st)) now path q) as (_ & Hr & _).
           split; [intros _|intros _; exact Hr]. split; [intros _; now apply Hauth|reflexivity].
       + cbn [snd]. unfold reaches_handler. split; [intros [H _]; congruence|].
         intros [H _]. specialize (H eq_refl). apply Hauth in H. discriminate.
@@ -106,15 +283,12 @@ Section ServeHlsProofs.
         intros [H _]. specialize (H eq_refl). apply Hauth in H. discriminate.
       + cbn [snd]. unfold reaches_handler. split; [intros [H _]; congruence|].
         intros [H _]. specialize (H eq_refl). apply Hauth in H. discriminate.
-    - cbn [negb]. destruct (bl_has (hs_bl st) ip now) as [t' b] eqn:Eb. cbn [snd]. destruct b.
+    - cbn [negb]. destruct (bl_has (hs_bl st) ip (now / 1000)) as [t' b] eqn:Eb. cbn [snd]. destruct b.
       + cbn [snd]. unfold reaches_handler. split; [intros [_ H]; congruence|intros [_ H]; discriminate].
-      + destruct (handler_spec sub root (mk_hls_state t' (hs_sessions st) (hs_next st)) path q) as (_ & Hr & _).
+      + destruct (handler_spec sub root (mk_hls_state t' (hs_sessions st) (hs_next st)) now path q) as (_ & Hr & _).
         split; [intros _|intros _; exact Hr]. split; [discriminate|reflexivity].
   Qed.
 
-  (* the decision about the secret looks at the first lal_secret value only: two query
-     strings whose parses agree on it are treated alike, whatever else they contain
-     (session_id, arbitrary keys, duplicates, order) *)
   Lemma carries_secret_first_value cfg stream q1 q2 l1 l2 :
     parse_query q1 = Some l1 -> parse_query q2 = Some l2 ->
     query_get l1 secret_name = query_get l2 secret_name ->
@@ -126,8 +300,6 @@ Section ServeHlsProofs.
     - rewrite H2 in Hp. inversion Hp; subst l. rewrite <- He in Hv. auto.
   Qed.
 
-  (* whatever is served lies inside the root, came past the black-list, and - for a
-     playlist - past simple auth *)
   Theorem hls_served_confined cfg sub root st now ip path q st' p :
     root <> [] -> serve cfg sub root st now ip path q = (st', HrFile p) ->
     inside root p /\ reaches_handler (snd (serve cfg sub root st now ip path q)).
@@ -135,9 +307,151 @@ Section ServeHlsProofs.
     intros Hr H. split; [|rewrite H; split; discriminate].
     revert H. unfold serve_hls.
     match goal with |- context [negb ?b] => destruct b end; cbn [negb]; [|discriminate].
-    destruct (bl_has (hs_bl st) ip now) as [t1 b]. destruct b; [discriminate|].
+    destruct (bl_has (hs_bl st) ip (now / 1000)) as [t1 b]. destruct b; [discriminate|].
     intros H.
-    destruct (handler_spec sub root (mk_hls_state t1 (hs_sessions st) (hs_next st)) path q) as (_ & _ & Hf).
+    destruct (handler_spec sub root (mk_hls_state t1 (hs_sessions st) (hs_next st)) now path q) as (_ & _ & Hf & _).
     rewrite H in Hf. cbn [snd] in Hf. apply (serve_confined root path); auto.
+  Qed.
+
+  (* ---- kicked / expired sessions ------------------------------------------------------ *)
+  (* sid was handed out before: it differs from every id still to come *)
+  Definition issued (sid : bytes) (st : hls_state) : Prop :=
+    exists k0, sid = new_session_id k0 /\ (k0 < hs_next st)%N.
+
+  Section Invariant.
+    Variable sid : bytes.
+    Variable R : list hsess -> Prop.     (* all_disposed sid, or absent sid *)
+    Hypothesis R_sub : forall l' l, sub_of l' l -> R l -> R l'.
+    Hypothesis R_cons : forall y l, hx_id y <> sid -> R l -> R (y :: l).
+
+    Lemma serve_keeps cfg sub root st now ip path q :
+      issued sid st -> R (hs_sessions st) ->
+      issued sid (fst (serve cfg sub root st now ip path q)) /\ R (hs_sessions (fst (serve cfg sub root st now ip path q))).
+    Proof.
+      intros Hi Hr. unfold serve_hls.
+      match goal with |- context [negb ?b] => destruct b end; cbn [negb]; [|now split].
+      destruct (bl_has (hs_bl st) ip (now / 1000)) as [t' b]. destruct b.
+      - cbn [fst hs_sessions]. split; [exact Hi|]. apply (R_sub _ _ (sub_of_remove _ _) Hr).
+      - destruct (handler_spec sub root (mk_hls_state t' (hs_sessions st) (hs_next st)) now path q) as (_ & _ & _ & [[Hs Hn]|(y & l & El & Ey & Hs & Hn)]);
+          cbn [hs_sessions hs_next] in *.
+        + split; [|now apply (R_sub _ _ Hs)]. destruct Hi as (k0 & E & Hk). exists k0. rewrite Hn. auto.
+        + destruct Hi as (k0 & E & Hk). split; [exists k0; rewrite Hn; split; [exact E|lia]|].
+          rewrite El. apply R_cons; [|now apply (R_sub _ _ Hs)].
+          rewrite Ey, E. intros Heq. apply new_session_id_inj in Heq. lia.
+    Qed.
+
+    Lemma advance_keeps n to ph : forall l now, R l -> R (fst (advance_secs n to ph l now)).
+    Proof.
+      induction n as [|n IH]; intros l now H; cbn [advance_secs]; [exact H|].
+      apply IH. apply (R_sub _ _ (sub_of_sweep _ _ _) H).
+    Qed.
+
+    Lemma step_keeps cfg sub root to ph st now o :
+      issued sid st -> R (hs_sessions st) ->
+      issued sid (fst (fst (step cfg sub root to ph st now o))) /\ R (hs_sessions (fst (fst (step cfg sub root to ph st now o)))).
+    Proof.
+      intros Hi Hr. destruct o as [k path q|k d|s|x|]; cbn [sh_step].
+      - pose proof (serve_keeps cfg sub root st now k path q Hi Hr) as H.
+        destruct (serve cfg sub root st now k path q) as [st' resp]. exact H.
+      - cbn [fst hs_sessions]. now split.
+      - pose proof (advance_keeps (Z.to_nat s) to ph (hs_sessions st) now Hr) as H.
+        destruct (advance_secs (Z.to_nat s) to ph (hs_sessions st) now) as [l t]. cbn [fst hs_sessions] in *. now split.
+      - cbn [fst hs_sessions]. split; [exact Hi|]. apply (R_sub _ _ (sub_of_dispose _ _) Hr).
+      - cbn [fst]. now split.
+    Qed.
+
+    Lemma exec_keeps cfg sub root to ph ops : forall st now,
+      issued sid st -> R (hs_sessions st) ->
+      issued sid (fst (exec cfg sub root to ph st now ops)) /\ R (hs_sessions (fst (exec cfg sub root to ph st now ops))).
+    Proof.
+      induction ops as [|o r IH]; intros st now Hi Hr; [now split|]. cbn [sh_exec].
+      destruct (step_keeps cfg sub root to ph st now o Hi Hr) as [Hi' Hr'].
+      destruct (step cfg sub root to ph st now o) as [[st' t] x]. cbn [fst] in *. now apply IH.
+    Qed.
+  End Invariant.
+
+  (* a request that carries an id that is not registered gets no content *)
+  Lemma serve_absent cfg root st now ip path q :
+    sid_of q <> [] -> absent (sid_of q) (hs_sessions st) ->
+    forall p, snd (serve cfg true root st now ip path q) <> HrFile p.
+  Proof.
+    intros Hne Ha p. unfold serve_hls.
+    match goal with |- context [negb ?b] => destruct b end; cbn [negb]; [|discriminate].
+    destruct (bl_has (hs_bl st) ip (now / 1000)) as [t' b]. destruct b; [discriminate|].
+    unfold hls_handler. cbn [hs_sessions]. unfold absent in Ha. rewrite Ha.
+    apply is_empty_false in Hne. rewrite Hne. cbn [negb]. rewrite andb_true_r.
+    destruct (beq (snd (filename_and_type (last_item_of_path path))) s_ts) eqn:Ets; [discriminate|].
+    destruct (beq (snd (filename_and_type (last_item_of_path path))) s_m3u8) eqn:Em; [discriminate|].
+    cbn [snd]. destruct (hls_serve_file path root) as [f|] eqn:Ef; [|discriminate].
+    apply serve_file_type in Ef as [E|E]; congruence.
+  Qed.
+
+  Definition carrying (sid : bytes) (e : sh_op * hls_resp) : Prop :=
+    match fst e with ShGet _ _ q => sid_of q = sid -> forall p, snd e <> HrFile p | _ => True end.
+
+  Lemma trace_absent cfg root to ph sid ops : forall st now,
+    issued sid st -> absent sid (hs_sessions st) ->
+    Forall (carrying sid) (trace cfg true root to ph st now ops).
+  Proof.
+    induction ops as [|o r IH]; intros st now Hi Ha; [constructor|]. cbn [sh_trace].
+    destruct (step_keeps sid (absent sid) (absent_sub sid) (absent_cons sid) cfg true root to ph st now o Hi Ha) as [Hi' Ha'].
+    assert (Hhead : forall x, snd (step cfg true root to ph st now o) = Some x -> carrying sid (o, x)).
+    { intros x Hx. unfold carrying. cbn [fst snd]. destruct o as [k path q|k d|s|y|]; try exact I.
+      intros Eq p. cbn [sh_step] in Hx.
+      pose proof (serve_absent cfg root st now k path q) as Hs. rewrite Eq in Hs.
+      destruct (serve cfg true root st now k path q) as [st' resp]. cbn [snd] in *. inversion Hx; subst x.
+      apply Hs; [|exact Ha]. destruct Hi as (k0 & -> & _). discriminate. }
+    destruct (step cfg true root to ph st now o) as [[st' t] [x|]]; cbn [fst snd] in *.
+    - constructor; [now apply Hhead|now apply IH].
+    - now apply IH.
+  Qed.
+
+  (* a kick cannot be undone: after kick(sid), whatever happens before the next sweep
+     (requests carrying sid included - the handler still serves them, KeepAlive does not
+     clear the disposed flag), once the clock has advanced by at least one second (one
+     sweep) sid is gone, and from then on no request carrying sid is served *)
+  Theorem hls_kick_final cfg root to ph sid st now window s later :
+    issued sid st -> 1 <= s ->
+    let after := exec cfg true root to ph st now (ShKick sid :: window ++ [ShSleep s]) in
+    absent sid (hs_sessions (fst after)) /\
+    Forall (carrying sid) (trace cfg true root to ph (fst after) (snd after) later).
+  Proof.
+    intros Hi Hs after.
+    assert (Ha : issued sid (fst after) /\ absent sid (hs_sessions (fst after))).
+    { subst after. cbn [sh_exec sh_step]. rewrite exec_app.
+      set (st1 := mk_hls_state (hs_bl st) (sess_dispose sid (hs_sessions st)) (hs_next st)).
+      assert (Hi1 : issued sid st1) by exact Hi.
+      assert (Hd1 : all_disposed sid (hs_sessions st1)) by apply dispose_all_disposed.
+      destruct (exec_keeps sid (all_disposed sid) (all_disposed_sub sid) (all_disposed_cons sid) cfg true root to ph window st1 now Hi1 Hd1) as [Hi2 Hd2].
+      destruct (exec cfg true root to ph st1 now window) as [st2 t2]. cbn [fst snd] in *.
+      cbn [sh_exec sh_step].
+      destruct (Z.to_nat s) as [|n] eqn:En; [lia|]. cbn [advance_secs].
+      pose proof (advance_keeps (absent sid) (absent_sub sid) n to ph
+                    (sess_sweep to (next_tick ph t2) (hs_sessions st2)) (t2 + 1000)
+                    (sweep_absent sid to _ _ Hd2)) as Hab.
+      destruct (advance_secs n to ph (sess_sweep to (next_tick ph t2) (hs_sessions st2)) (t2 + 1000)) as [l t].
+      cbn [fst snd hs_sessions] in *. split; [exact Hi2|exact Hab]. }
+    destruct Ha as [Hi' Ha']. split; [exact Ha'|]. now apply trace_absent.
+  Qed.
+
+  (* expiry: if at the next sweep every entry of sid is idle for longer than the timeout,
+     that sweep removes it and from then on no request carrying sid is served *)
+  Theorem hls_expiry_final cfg root to ph sid st now s later :
+    issued sid st -> 1 <= s ->
+    (forall y, In y (hs_sessions st) -> hx_id y = sid -> hx_disposed y = true \/ hx_last y + to < next_tick ph now) ->
+    let after := exec cfg true root to ph st now [ShSleep s] in
+    absent sid (hs_sessions (fst after)) /\
+    Forall (carrying sid) (trace cfg true root to ph (fst after) (snd after) later).
+  Proof.
+    intros Hi Hs Hx after.
+    assert (Ha : issued sid (fst after) /\ absent sid (hs_sessions (fst after))).
+    { subst after. cbn [sh_exec sh_step].
+      destruct (Z.to_nat s) as [|n] eqn:En; [lia|]. cbn [advance_secs].
+      pose proof (advance_keeps (absent sid) (absent_sub sid) n to ph
+                    (sess_sweep to (next_tick ph now) (hs_sessions st)) (now + 1000)
+                    (sweep_expired sid to _ _ Hx)) as Hab.
+      destruct (advance_secs n to ph (sess_sweep to (next_tick ph now) (hs_sessions st)) (now + 1000)) as [l t].
+      cbn [fst snd hs_sessions] in *. split; [exact Hi|exact Hab]. }
+    destruct Ha as [Hi' Ha']. split; [exact Ha'|]. now apply trace_absent.
   Qed.
 End ServeHlsProofs.
